@@ -18,15 +18,10 @@ import (
 // {insert k (5), delete k (5), popitem/pop, clear} through the Go API, from each start table.
 
 const (
-	modeNone   = 0
-	modeSpread = 1
-	modeChain  = 2
-	nOps       = 12
-	opPop      = 10
-	opClear    = 11
+	nOps    = 12
+	opPop   = 10
+	opClear = 11
 )
-
-var modeName = [3]string{"empty", "spread", "chain"}
 
 type xcfg struct {
 	kind int  // kDict / kSet
@@ -49,21 +44,34 @@ func (g xcfg) String() string {
 
 var prefillSizes = []int{7, 8, 9, 12, 13, 26, 52, 53}
 
-// exhaustiveConfigs lists the start tables. With full = L the pairing (dict, universe 0) and
-// (set, universe 1) is enumerated to length L, the two cross pairings to length L-1.
+// mixed starts exist for the sizes at (or one below) which an insertion doubles the table
+var mixedSizes = []int{12, 13, 26, 52}
+
+// exhaustiveConfigs lists the start tables and the length bound of each.
+//   - dict over universe 0: sequences of length <= L from every start, except L-1 from the two largest (52, 53);
+//   - set over universe 1: the starts empty, zero value, chain:8 and chain:13 to length L, the others to L-1;
+//   - dict over universe 1 and set over universe 0: every start to length L-1.
 func exhaustiveConfigs(L int) []xcfg {
 	var out []xcfg
 	for kind := 0; kind < 2; kind++ {
 		for uni := 0; uni < 2; uni++ {
-			l := L
-			if kind != uni {
-				l = L - 1
+			bound := func(mode, n int) int {
+				switch {
+				case kind == kDict && uni == 0 && n < 52:
+					return L
+				case kind == kSet && uni == 1 && (mode == modeNone || mode == modeChain && (n == 8 || n == 13)):
+					return L
+				}
+				return L - 1
 			}
-			out = append(out, xcfg{kind: kind, uni: uni, L: l}, xcfg{kind: kind, uni: uni, zero: true, L: l})
+			out = append(out, xcfg{kind: kind, uni: uni, L: bound(modeNone, 0)}, xcfg{kind: kind, uni: uni, zero: true, L: bound(modeNone, 0)})
 			for _, mode := range []int{modeSpread, modeChain} {
 				for _, n := range prefillSizes {
-					out = append(out, xcfg{kind: kind, uni: uni, n: n, mode: mode, L: l})
+					out = append(out, xcfg{kind: kind, uni: uni, n: n, mode: mode, L: bound(mode, n)})
 				}
+			}
+			for _, n := range mixedSizes {
+				out = append(out, xcfg{kind: kind, uni: uni, n: n, mode: modeMixed, L: bound(modeMixed, n)})
 			}
 		}
 	}
@@ -77,26 +85,22 @@ type pstep struct {
 }
 
 // prefillScript returns the history that builds the start table: n live fillers at the end.
-// In chain mode (n >= 7) filler 2 is deleted after filler 4 went in and one more filler is added,
-// so the chain already holds a vacated slot between live ones; len never exceeds n on the way,
-// hence the growth points are those of a plain fill.
+// In chain mode the table is filled to n, then the filler in the middle of the order list is deleted
+// and one more filler inserted: the chain holds a vacated slot (re-used or not, depending on where
+// the chain's last vacant slot is) and the order list no longer follows the slot order. len never
+// exceeds n, so the bucket count is that of a plain fill to n.
 func prefillScript(g xcfg) (steps []pstep, nfill int) {
 	if g.mode == modeNone {
 		return nil, 0
 	}
-	hole := g.mode == modeChain && g.n >= 7
-	j := 0
-	live := 0
-	for live < g.n {
+	for j := 0; j < g.n; j++ {
 		steps = append(steps, pstep{false, j})
-		j++
-		live++
-		if hole && j == 5 {
-			steps = append(steps, pstep{true, 2})
-			live--
-		}
 	}
-	return steps, j
+	if g.mode == modeChain {
+		steps = append(steps, pstep{true, g.n / 2}, pstep{false, g.n})
+		return steps, g.n + 1
+	}
+	return steps, g.n
 }
 
 type xrun struct {
@@ -114,15 +118,22 @@ type xrun struct {
 	msave []model
 	path  []uint8
 	dirty bool // a violation was seen below: do not trust undo, rebuild
+	stale bool // the table does not correspond to x.path; rebuild before the next use
+
+	idbuf      []int32
+	depths     [16]int // sequences judged, by length
+	wantSample bool
+	sampleSeq  string
+	sampleEnd  string
 
 	noUndo bool   // cross-check mode: always rebuild
 	xsum   uint64 // cross-check accumulator over all visited nodes
 	xcheck bool
 
 	nodes, leaves, rebuilds, undos, grows, tablechecks int
-	shapes                                           map[[2]int]struct{}
-	states                                           map[uint64]struct{}
-	nbad                                             map[string]int
+	shapes                                             map[[2]int]struct{}
+	states                                             map[uint64]struct{}
+	nbad                                               map[string]int
 }
 
 func opName(op int) string {
@@ -213,6 +224,7 @@ func (x *xrun) rebuild() {
 		}
 	}
 	x.tab = t
+	x.stale = false
 }
 
 func (x *xrun) prefillModel() {
@@ -319,9 +331,14 @@ func mix(h, v uint64) uint64 {
 func (x *xrun) check(depth int) {
 	t, m := x.tab, x.m
 	x.nodes++
+	x.depths[depth]++
 	leaf := depth == x.g.L
 	if leaf {
 		x.leaves++
+		if x.wantSample && x.sampleSeq == "" && x.leaves%977 == 0 {
+			x.sampleSeq = x.pathString()
+			x.sampleEnd = fmt.Sprintf("len=%d order(ids; 0-4 universe, >=5 fillers)=%v", m.len(), m.order)
+		}
 	}
 	if n := t.length(); n != m.len() {
 		x.bad("len", "Len() = %d, model %d", n, m.len())
@@ -336,6 +353,9 @@ func (x *xrun) check(depth int) {
 		} else if !vok || (found && v != mv) {
 			x.bad("lookup", "lookup(K%d) = %d (wellformed=%v), model %d", i, v, vok, mv)
 		}
+	}
+	if x.dirty {
+		return // one report per divergence
 	}
 	// first and last live entry (fillers included) and the filler popped most recently
 	if n := len(m.order); n > 0 {
@@ -356,8 +376,12 @@ func (x *xrun) check(depth int) {
 			break
 		}
 	}
+	if x.dirty {
+		return
+	}
 	// iteration order
-	ids, overrun := iterIDs(t.iter(), len(m.order)+1)
+	ids, overrun := iterIDsBuf(t.iter(), len(m.order)+1, x.idbuf)
+	x.idbuf = ids
 	if overrun || !idsEqual(ids, m.order) {
 		x.bad("order", "Iterate() yields %s, model %s", fmtIDs(ids), fmtIDs(m.order))
 	} else if !leaf || x.leaves&7 == 0 {
@@ -376,9 +400,14 @@ func (x *xrun) check(depth int) {
 			}
 		}
 	}
-	x.tablechecks++
-	if err := starlark.VerifCheckTable(t.value()); err != nil {
-		x.bad("table-invariant", "VerifCheckTable: %v", err)
+	if x.dirty {
+		return
+	}
+	if !leaf || x.leaves&3 == 0 {
+		x.tablechecks++
+		if err := starlark.VerifCheckTable(t.value()); err != nil {
+			x.bad("table-invariant", "VerifCheckTable: %v", err)
+		}
 	}
 	b, o := starlark.VerifTableShape(t.value())
 	sh := [2]int{b, o}
@@ -412,18 +441,25 @@ func (x *xrun) check(depth int) {
 
 // step applies op at the given depth, checks, explores all extensions, and restores the table.
 func (x *xrun) step(op, depth int) {
+	if x.stale {
+		x.rebuild()
+	}
 	x.msave[depth].copyFrom(x.m)
 	undo, oldv := x.apply(op, depth)
 	x.path = append(x.path, uint8(op))
-	x.check(depth + 1)
-	if depth+1 < x.g.L {
+	if !x.dirty { // a wrong result already separates table and model: the rest would only repeat it
+		x.check(depth + 1)
+	}
+	if depth+1 < x.g.L && !x.dirty {
 		for o := 0; o < nOps; o++ {
 			x.step(o, depth+1)
 		}
 	}
 	x.path = x.path[:depth]
 	x.m.copyFrom(&x.msave[depth])
-	if x.dirty || x.noUndo {
+	if x.dirty || x.noUndo || x.stale {
+		// (a stale table would have to be rebuilt for path+op first; the undo below is exact,
+		// so rebuilding for the shorter path when it is next needed is the same thing)
 		undo = undoRebuild
 		x.dirty = false
 	}
@@ -439,7 +475,7 @@ func (x *xrun) step(op, depth int) {
 		x.tab.del(x.uni[op])
 		x.undos++
 	default:
-		x.rebuild()
+		x.stale = true
 	}
 }
 
@@ -451,13 +487,19 @@ func (x *xrun) runPrefix(o1, o2 int) {
 	x.prefillModel()
 	x.rebuild()
 	x.check(0)
+	if x.dirty {
+		x.dirty = false
+		return
+	}
 	x.msave[0].copyFrom(x.m)
 	x.apply(o1, 0)
 	x.path = append(x.path, uint8(o1))
-	x.check(1)
-	if x.dirty { // keep later reports anchored to a table built from scratch
-		x.rebuild()
+	if !x.dirty {
+		x.check(1)
+	}
+	if x.dirty { // table and model differ after the first operation already: nothing to extend
 		x.dirty = false
+		return
 	}
 	x.step(o2, 1)
 }
@@ -468,11 +510,7 @@ func newXrun(c *driver.Ctx, g xcfg, ci int, th *starlark.Thread) *xrun {
 	x.uniQ = universe(g.uni)
 	var nfill int
 	x.pre, nfill = prefillScript(g)
-	for j := 0; j < nfill; j++ {
-		h := spreadHash(j)
-		if g.mode == modeChain {
-			h = chainHash(g.uni, j)
-		}
+	for j, h := range fillerHashes(g.mode, g.uni, g.n, nfill) {
 		x.fill = append(x.fill, &hkey{id: int32(5 + j), h: h, name: fmt.Sprintf("F%d", j)})
 	}
 	x.m = newModel(5 + nfill)
@@ -498,6 +536,7 @@ func runExhaustive(c *driver.Ctx) {
 	th := &starlark.Thread{Name: "c12"}
 	ncases := len(cfgs) * nOps * nOps
 	idx := 0
+	nxs := 0 // samples taken by this shard (the other arms get the remaining slots)
 	for ci, g := range cfgs {
 		var x *xrun
 		t0 := cpuNow()
@@ -512,6 +551,7 @@ func runExhaustive(c *driver.Ctx) {
 				}
 				c.Note("key=C12 exhaustive %s crash\n%s first ops %s; %s", kindName[g.kind], g, opName(o1), opName(o2))
 				x.xcheck = c.Case()%61 == 0
+				x.wantSample, x.sampleSeq = nxs < 2 && c.Shard%3 == 0 && c.WantSample() && o1 < 5 && o2 != o1 && (g.mode != modeNone || c.Shard == 0), ""
 				x.noUndo = false
 				x.xsum = 0
 				n0 := x.nodes
@@ -526,6 +566,7 @@ func runExhaustive(c *driver.Ctx) {
 					// harness self-test: the same case with every restore done by a rebuild from scratch
 					// must observe exactly the same orders and table shapes at every node
 					with := x.xsum
+					saved := [6]int{x.nodes, x.leaves, x.rebuilds, x.undos, x.grows, x.tablechecks}
 					x.xsum, x.noUndo = 0, true
 					if p := sl.Safe(func() { x.runPrefix(o1, o2) }); p == nil {
 						if x.xsum != with && len(x.nbad) == 0 {
@@ -534,17 +575,19 @@ func runExhaustive(c *driver.Ctx) {
 						c.Count("x_undo_crosschecked_cases", 1)
 					}
 					x.noUndo = false
+					x.nodes, x.leaves, x.rebuilds, x.undos, x.grows, x.tablechecks = saved[0], saved[1], saved[2], saved[3], saved[4], saved[5]
 				}
 				c.Eval(judged)
 				c.Distinct(fmt.Sprintf("x/%d/%d/%d", ci, o1, o2))
-				if c.WantSample() && o1 < 5 && o2 != o1 {
+				if x.wantSample && x.sampleSeq != "" {
+					nxs++
 					c.Sample(map[string]any{"arm": "exhaustive", "start": g.String(), "first_ops": opName(o1) + "; " + opName(o2),
+						"one_sequence": x.sampleSeq, "its_final_state": x.sampleEnd,
 						"extensions_enumerated_to_length": g.L, "sequences_judged": judged})
 				}
 				if idx == ncases {
 					// the case list of this tier ends here; every shard runs its share of it
 					c.Count("exhaustive_subspace_completed", 1)
-					c.Count("x_length_bound", L)
 				}
 			}
 		}
@@ -565,6 +608,11 @@ func runExhaustive(c *driver.Ctx) {
 				c.DistinctH(st)
 			}
 			c.Cover("x_start", g.String())
+			for d, n := range x.depths {
+				if n > 0 {
+					c.Cover("x_sequence_lengths_judged", fmt.Sprintf("%s/%s len=%d", kindName[g.kind], []string{"universe0", "universe1"}[g.uni], d))
+				}
+			}
 		}
 	}
 }
